@@ -401,7 +401,7 @@ fn eval_keys(prop: &str) -> Vec<&'static str> {
         "C16" => vec!["vop", "vop_origin"],
         "C17" => vec!["vmerge"],
         "C19" => vec!["serde_state", "serde_op", "shadow_step"],
-        "C20" => vec!["eq", "residue", "canonical"],
+        "C20" => vec!["eq", "eq_sound", "residue", "canonical"],
         _ => vec![],
     }
 }
